@@ -95,6 +95,301 @@ def _expose_args(body):
 
 
 
+# ------------------------------------------------------------------------------------------------
+# a small partial evaluator for the bounds slice of estimate_lmfit_parinfo
+#
+# Real mode has no comparisons, so the two sign branches (`amp > 0` / otherwise) are regenerated separately under the
+# ASSUMPTION of the sign.  To survive ordinary refactorings the function is normalised first:
+#   * `if X is None: X = Y` defaulting prologues are dropped (the model takes the effective value as input);
+#   * chained assignments `a = b = e` become `b = e; a = b`;
+#   * `p, q = sorted(data.shape)` becomes `p = min(data.shape[0], data.shape[1]); q = max(...)`; `min(data.shape)` and
+#     `max(data.shape)` get their two arguments spelled out;
+#   * a call `T = self.helper(args)` / `T = helper(args)` of a helper defined in the same class / module whose body is
+#     assignments, `if`s and `return`s only is INLINED (parameters substituted by the pure argument expressions, locals
+#     renamed); anything else about a helper (loops, keyword arguments, a parameter that is re-assigned, a return that
+#     survives in the middle) is refused -> UNTRANSLATABLE, never guessed;
+#   * comparisons decided by the assumption, comparisons between known constants, `abs(x)` of a signed x, conditional
+#     expressions and `if` statements with a decided test are folded; names bound to numeric constants are propagated
+#     (invalidated by any later or loop-carried assignment).
+
+
+class _Refuse(Exception):
+    pass
+
+
+def _assigned_names(stmts):
+    out = set()
+    for s in stmts:
+        for n in ast.walk(s):
+            if isinstance(n, ast.Name) and isinstance(n.ctx, ast.Store):
+                out.add(n.id)
+    return out
+
+
+class _ExprFold(ast.NodeTransformer):
+    def __init__(self, consts, assume, signs):
+        self.consts, self.assume, self.signs = consts, assume, signs
+
+    def visit_Name(self, node):
+        if isinstance(node.ctx, ast.Load) and node.id in self.consts:
+            return ast.copy_location(ast.Constant(value=self.consts[node.id]), node)
+        return node
+
+    def visit_Compare(self, node):
+        key = ast.unparse(node)
+        if key in self.assume:
+            return ast.copy_location(ast.Constant(value=self.assume[key]), node)
+        self.generic_visit(node)
+        if len(node.ops) == 1 and isinstance(node.left, ast.Constant) and isinstance(node.comparators[0], ast.Constant) \
+                and all(isinstance(v.value, (int, float)) and not isinstance(v.value, bool) for v in (node.left, node.comparators[0])):
+            a, b = node.left.value, node.comparators[0].value
+            op = node.ops[0]
+            table = {ast.Lt: a < b, ast.LtE: a <= b, ast.Gt: a > b, ast.GtE: a >= b, ast.Eq: a == b, ast.NotEq: a != b}
+            if type(op) in table:
+                return ast.copy_location(ast.Constant(value=table[type(op)]), node)
+        return node
+
+    def visit_UnaryOp(self, node):
+        self.generic_visit(node)
+        if isinstance(node.op, ast.USub) and isinstance(node.operand, ast.Constant) \
+                and isinstance(node.operand.value, (int, float)) and not isinstance(node.operand.value, bool):
+            return ast.copy_location(ast.Constant(value=-node.operand.value), node)
+        if isinstance(node.op, ast.Not) and isinstance(node.operand, ast.Constant) and isinstance(node.operand.value, bool):
+            return ast.copy_location(ast.Constant(value=not node.operand.value), node)
+        return node
+
+    def visit_IfExp(self, node):
+        self.generic_visit(node)
+        if isinstance(node.test, ast.Constant) and isinstance(node.test.value, bool):
+            return node.body if node.test.value else node.orelse
+        return node
+
+    def visit_Call(self, node):
+        self.generic_visit(node)
+        if isinstance(node.func, ast.Name) and node.func.id == 'abs' and len(node.args) == 1 and not node.keywords:
+            key = ast.unparse(node.args[0])
+            if key in self.signs:
+                return node.args[0] if self.signs[key] > 0 else ast.copy_location(
+                    ast.UnaryOp(op=ast.USub(), operand=node.args[0]), node)
+        return node
+
+
+def _fold_block(stmts, consts, assume, signs):
+    """-> (statements, every path returned)"""
+    out = []
+    for s in stmts:
+        if isinstance(s, (ast.For, ast.While)):
+            carried = _assigned_names([s])
+            for n in carried:
+                consts.pop(n, None)
+            s.body, _ = _fold_block(s.body, dict(consts), assume, signs)
+            out.append(s)
+            continue
+        if isinstance(s, (ast.With, ast.Try)):
+            for n in _assigned_names([s]):
+                consts.pop(n, None)
+            s.body, _ = _fold_block(s.body, dict(consts), assume, signs)
+            out.append(s)
+            continue
+        if isinstance(s, ast.If):
+            s.test = _ExprFold(consts, assume, signs).visit(s.test)
+            if isinstance(s.test, ast.Constant) and isinstance(s.test.value, bool):
+                blk, ret = _fold_block(s.body if s.test.value else s.orelse, consts, assume, signs)
+                out += blk
+                if ret:
+                    return out, True
+                continue
+            b1, r1 = _fold_block(s.body, dict(consts), assume, signs)
+            b2, r2 = _fold_block(s.orelse, dict(consts), assume, signs)
+            for n in _assigned_names(s.body) | _assigned_names(s.orelse):
+                consts.pop(n, None)
+            s.body, s.orelse = b1 or [ast.Pass()], b2
+            out.append(s)
+            if r1 and r2:
+                return out, True
+            continue
+        if isinstance(s, (ast.FunctionDef, ast.ClassDef)):
+            out.append(s)
+            continue
+        s = _ExprFold(consts, assume, signs).visit(s) if not isinstance(s, (ast.Assign, ast.AugAssign)) else s
+        if isinstance(s, ast.Assign):
+            s.value = _ExprFold(consts, assume, signs).visit(s.value)
+            for n in _assigned_names([s]):
+                consts.pop(n, None)
+            if len(s.targets) == 1 and isinstance(s.targets[0], ast.Name) and isinstance(s.value, ast.Constant) \
+                    and isinstance(s.value.value, (int, float)) and not isinstance(s.value.value, bool):
+                consts[s.targets[0].id] = s.value.value
+        elif isinstance(s, ast.AugAssign):
+            s.value = _ExprFold(consts, assume, signs).visit(s.value)
+            for n in _assigned_names([s]):
+                consts.pop(n, None)
+        out.append(s)
+        if isinstance(s, ast.Return):
+            return out, True
+    return out, False
+
+
+class _Subst(ast.NodeTransformer):
+    def __init__(self, params, rename):
+        self.params, self.rename = params, rename
+
+    def visit_Name(self, node):
+        if node.id in self.params and isinstance(node.ctx, ast.Load):
+            return copy.deepcopy(self.params[node.id])
+        if node.id in self.rename:
+            return ast.copy_location(ast.Name(id=self.rename[node.id], ctx=node.ctx), node)
+        return node
+
+
+def _pure(e):
+    return all(isinstance(n, (ast.Name, ast.Constant, ast.Attribute, ast.Subscript, ast.UnaryOp, ast.USub, ast.UAdd, ast.Load,
+                              ast.Tuple, ast.BinOp, ast.Add, ast.Sub, ast.Mult, ast.Div, ast.Index if hasattr(ast, 'Index') else ast.Load))
+               for n in ast.walk(e))
+
+
+def _find_helper(tree, fn, name):
+    for cls in ast.walk(tree):
+        if isinstance(cls, ast.ClassDef) and any(ch is fn or (isinstance(ch, ast.FunctionDef) and ch.name == fn.name) for ch in cls.body):
+            for ch in cls.body:
+                if isinstance(ch, ast.FunctionDef) and ch.name == name:
+                    return ch, not any(isinstance(d, ast.Name) and d.id == 'staticmethod' for d in ch.decorator_list)
+    for ch in tree.body:
+        if isinstance(ch, ast.FunctionDef) and ch.name == name:
+            return ch, False
+    return None, False
+
+
+def _inline_helpers(tree, fn, body, assume, signs, counter):
+    out = []
+    for s in body:
+        for fld in ('body', 'orelse', 'finalbody'):
+            if hasattr(s, fld) and isinstance(getattr(s, fld), list) and not isinstance(s, (ast.FunctionDef, ast.ClassDef)):
+                setattr(s, fld, _inline_helpers(tree, fn, getattr(s, fld), assume, signs, counter))
+        call = s.value if isinstance(s, ast.Assign) and isinstance(s.value, ast.Call) else None
+        name = None
+        if call is not None:
+            f = call.func
+            if isinstance(f, ast.Name):
+                name = f.id
+            elif isinstance(f, ast.Attribute) and isinstance(f.value, ast.Name) and f.value.id in ('self', 'cls', 'SourceFinder'):
+                name = f.attr
+        hd, has_self = _find_helper(tree, fn, name) if name else (None, False)
+        if hd is None or hd is fn:
+            out.append(s)
+            continue
+        # from here on the call IS to a helper of ours: inline it or refuse
+        a = hd.args
+        if call.keywords or a.vararg or a.kwarg or a.kwonlyargs or a.defaults or a.posonlyargs:
+            raise _Refuse(f'helper {name}: unsupported signature / keyword arguments')
+        pnames = [x.arg for x in a.args][(1 if has_self else 0):]
+        if len(pnames) != len(call.args) or not all(_pure(e) for e in call.args):
+            raise _Refuse(f'helper {name}: arity or impure argument')
+        hbody = [copy.deepcopy(x) for x in hd.body
+                 if not (isinstance(x, ast.Expr) and isinstance(x.value, ast.Constant) and isinstance(x.value.value, str))]
+        for x in hbody:
+            for n in ast.walk(x):
+                if not isinstance(n, (ast.Assign, ast.AugAssign, ast.If, ast.Return, ast.expr, ast.expr_context, ast.operator, ast.unaryop,
+                                      ast.cmpop, ast.boolop, ast.keyword)):
+                    raise _Refuse(f'helper {name}: statement {type(n).__name__} outside the inlinable subset')
+        assigned = _assigned_names(hbody)
+        if assigned & set(pnames):
+            raise _Refuse(f'helper {name}: re-assigns a parameter')
+        counter[0] += 1
+        ren = {v: f'_h{counter[0]}_{v}' for v in assigned}
+        sub = _Subst(dict(zip(pnames, call.args)), ren)
+        hbody = [sub.visit(x) for x in hbody]
+        hbody, _ = _fold_block(hbody, {}, assume, signs)
+        rets = [n for x in hbody for n in ast.walk(x) if isinstance(n, ast.Return)]
+        if len(rets) != 1 or hbody[-1] is not rets[0] or rets[0].value is None:
+            raise _Refuse(f'helper {name}: does not reduce to straight-line code with one final return under the sign assumption')
+        out += hbody[:-1]
+        out.append(ast.copy_location(ast.Assign(targets=s.targets, value=rets[0].value, lineno=s.lineno), s))
+    return out
+
+
+def _normalise(body):
+    out = []
+    for s in body:
+        for fld in ('body', 'orelse', 'finalbody'):
+            if hasattr(s, fld) and isinstance(getattr(s, fld), list) and not isinstance(s, (ast.FunctionDef, ast.ClassDef)):
+                setattr(s, fld, _normalise(getattr(s, fld)))
+        # `if X is None: X = Y`
+        if isinstance(s, ast.If) and not s.orelse and isinstance(s.test, ast.Compare) and len(s.test.ops) == 1 \
+                and isinstance(s.test.ops[0], ast.Is) and isinstance(s.test.left, ast.Name) \
+                and isinstance(s.test.comparators[0], ast.Constant) and s.test.comparators[0].value is None \
+                and len(s.body) == 1 and isinstance(s.body[0], ast.Assign) and len(s.body[0].targets) == 1 \
+                and isinstance(s.body[0].targets[0], ast.Name) and s.body[0].targets[0].id == s.test.left.id:
+            continue
+        if isinstance(s, ast.Assign) and len(s.targets) > 1 and all(isinstance(t, ast.Name) for t in s.targets):
+            last = s.targets[-1]
+            out.append(ast.copy_location(ast.Assign(targets=[last], value=s.value, lineno=s.lineno), s))
+            for t in reversed(s.targets[:-1]):
+                out.append(ast.copy_location(ast.Assign(targets=[t], value=ast.Name(id=last.id, ctx=ast.Load()), lineno=s.lineno), s))
+            continue
+        if isinstance(s, ast.Assign) and len(s.targets) == 1 and isinstance(s.targets[0], ast.Tuple) and len(s.targets[0].elts) == 2 \
+                and all(isinstance(t, ast.Name) for t in s.targets[0].elts) and isinstance(s.value, ast.Call) \
+                and isinstance(s.value.func, ast.Name) and s.value.func.id == 'sorted' and len(s.value.args) == 1 \
+                and not s.value.keywords and ast.unparse(s.value.args[0]) == 'data.shape':
+            for t, fn_ in zip(s.targets[0].elts, ('min', 'max')):
+                out.append(ast.copy_location(ast.Assign(targets=[t], value=ast.parse(f'{fn_}(data.shape[0], data.shape[1])', mode='eval').body,
+                                                        lineno=s.lineno), s))
+            continue
+        out.append(s)
+    return out
+
+
+class _ShapeMinMax(ast.NodeTransformer):
+    def visit_Call(self, node):
+        self.generic_visit(node)
+        if isinstance(node.func, ast.Name) and node.func.id in ('min', 'max') and len(node.args) == 1 and not node.keywords \
+                and ast.unparse(node.args[0]) == 'data.shape':
+            return ast.copy_location(ast.parse(f'{node.func.id}(data.shape[0], data.shape[1])', mode='eval').body, node)
+        return node
+
+
+def _expose_params_add(body):
+    """before `params.add(prefix + 'NAME', value=v, min=lo, max=hi, ...)` insert `padd_NAME_value = v; padd_NAME_min = lo; …`
+    (a `float(...)` wrapper is dropped): WHICH limit is handed to WHICH lmfit parameter becomes part of the regenerated model"""
+    out = []
+    for s in body:
+        for fld in ('body', 'orelse', 'finalbody'):
+            if hasattr(s, fld) and isinstance(getattr(s, fld), list) and not isinstance(s, (ast.FunctionDef, ast.ClassDef)):
+                setattr(s, fld, _expose_params_add(getattr(s, fld)))
+        c = s.value if isinstance(s, ast.Expr) and isinstance(s.value, ast.Call) else None
+        if c is not None and isinstance(c.func, ast.Attribute) and c.func.attr == 'add' and isinstance(c.func.value, ast.Name) \
+                and c.func.value.id == 'params' and len(c.args) == 1 and isinstance(c.args[0], ast.BinOp) \
+                and isinstance(c.args[0].op, ast.Add) and isinstance(c.args[0].left, ast.Name) and c.args[0].left.id == 'prefix' \
+                and isinstance(c.args[0].right, ast.Constant) and isinstance(c.args[0].right.value, str):
+            name = c.args[0].right.value
+            for kw in c.keywords:
+                if kw.arg in ('value', 'min', 'max'):
+                    v = kw.value
+                    if isinstance(v, ast.Call) and isinstance(v.func, ast.Name) and v.func.id == 'float' and len(v.args) == 1:
+                        v = v.args[0]
+                    out.append(ast.Assign(targets=[ast.Name(id=f'padd_{name}_{kw.arg}', ctx=ast.Store())], value=copy.deepcopy(v),
+                                          lineno=s.lineno))
+        out.append(s)
+    return out
+
+
+def _prepare_bounds(tree, fn, positive):
+    assume = {'amp > 0': positive, '0 < amp': positive, 'amp >= 0': positive, 'amp <= 0': not positive, 'amp < 0': not positive,
+              '0 > amp': not positive}
+    signs = {'amp': 1 if positive else -1}
+    fn = copy.deepcopy(fn)
+    try:
+        fn = _ShapeMinMax().visit(fn)
+        fn.body = _normalise(fn.body)
+        fn.body = _inline_helpers(tree, fn, fn.body, assume, signs, [0])
+        fn.body = _normalise(fn.body)
+        fn.body, _ = _fold_block(fn.body, {}, assume, signs)
+        fn.body = _expose_params_add(fn.body)
+    except _Refuse as e:
+        raise py2lean.Untranslatable(str(e))
+    ast.fix_missing_locations(fn)
+    return fn
+
+
 def _wrap_find(orig):
     def find_function(tree, qualname):
         if qualname == '<module>':
@@ -104,6 +399,8 @@ def _wrap_find(orig):
         base, tag = qualname.split('#', 1)
         cut = 'loop' in tag
         fn = orig(tree, base)
+        if tag in ('c01bpos', 'c01bneg'):
+            return _prepare_bounds(tree, fn, tag == 'c01bpos')
         if True:
             fn = copy.deepcopy(fn)
             if tag.endswith('pos') or tag.endswith('neg'):
@@ -197,13 +494,32 @@ def _mk_bounds():
     neg = [('amp_min', 'ampMinNeg'), ('amp_max', 'ampMaxNeg')]
     for tag, lst in (('pos', pos), ('neg', neg)):
         for var, lname in lst:
-            out.append(dict(file='AegeanTools/source_finder.py', func='SourceFinder.estimate_lmfit_parinfo#c01loop' + tag,
+            out.append(dict(file='AegeanTools/source_finder.py', func='SourceFinder.estimate_lmfit_parinfo#c01b' + tag,
                             mode='real', params={p: 'A' for p in _BP}, subst=_BSUB, outputs=[(var, lname)],
                             fallback={lname: _fb(lname, _BP)}, all_params=_BP))
     return out
 
 
-TARGETS = _mk_bounds() + [
+_BP2 = _BP + ['xo0', 'yo0']
+_BSUB2 = dict(_BSUB, xo='xo0', yo='yo0')
+
+
+def _mk_padd():
+    """what `params.add` receives for each of the five bounded parameters (theta gets no min/max)"""
+    out = []
+    for tag in ('pos', 'neg'):
+        for name in ('amp', 'xo', 'yo', 'sx', 'sy'):
+            if tag == 'neg' and name != 'amp':
+                continue
+            for kw in ('value', 'min', 'max'):
+                lname = 'p' + name.capitalize() + kw.capitalize() + ('Neg' if (tag == 'neg') else ('Pos' if name == 'amp' else ''))
+                out.append(dict(file='AegeanTools/source_finder.py', func='SourceFinder.estimate_lmfit_parinfo#c01b' + tag,
+                                mode='real', params={p: 'A' for p in _BP2}, subst=_BSUB2, outputs=[(f'padd_{name}_{kw}', lname)],
+                                fallback={lname: _fb(lname, _BP2)}, all_params=_BP2))
+    return out
+
+
+TARGETS = _mk_bounds() + _mk_padd() + [
     dict(file='AegeanTools/fitting.py', func='elliptical_gaussian', mode='real',
          params={p: 'A' for p in _G}, subst={}, outputs=[], returns='gauss',
          fallback={'gauss': _fb('gauss', _G)}, all_params=_G),
